@@ -196,17 +196,29 @@ func c17r3(r *R) {
 		if p.Ret[1] == "nil" {
 			nOK++
 			base := p.Ret[0]
-			if p.Mem[base+".Regexp"] != "regexp.Compile(strings.CutPrefix($0, \"-\")#0)#0" || p.Mem[base+".Exclude"] != "strings.CutPrefix($0, \"-\")#1" {
-				good = false
-				why = append(why, "success path stores Regexp="+p.Mem[base+".Regexp"]+" Exclude="+p.Mem[base+".Exclude"])
+			// the pattern that is compiled and the flag, in either spelling: CutPrefix, or HasPrefix plus slicing
+			re, ex := p.Mem[base+".Regexp"], p.Mem[base+".Exclude"]
+			const cut = "strings.CutPrefix($0, \"-\")"
+			const has = "strings.HasPrefix($0, \"-\")"
+			pat := ""
+			switch {
+			case re == "regexp.Compile("+cut+"#0)#0" && ex == cut+"#1":
+				pat = cut + "#0"
+			case p.holds(has) && (re == "regexp.Compile($0[1:])#0" || re == "regexp.Compile(strings.TrimPrefix($0, \"-\"))#0") && (ex == "true" || ex == has):
+				pat = strings.TrimSuffix(strings.TrimPrefix(re, "regexp.Compile("), ")#0")
+			case p.holds("!"+has) && re == "regexp.Compile($0)#0" && (ex == "false" || ex == has):
+				pat = "$0"
 			}
-			if !p.hasCond(func(c string) bool { return c == "!(regexp.Compile(strings.CutPrefix($0, \"-\")#0)#1 != nil)" }) {
+			if pat == "" {
+				good = false
+				why = append(why, "success path stores Regexp="+re+" Exclude="+ex)
+			} else if !p.holds("!(regexp.Compile(" + pat + ")#1 != nil)") {
 				good = false
 				why = append(why, "success not guarded by Compile error == nil")
 			}
 		}
 	}
-	r.check(good && nOK == 1, "ruleset.ParseRegexpListItem", pf.Pos(), "one leading '-' cut (strings.CutPrefix), remainder compiled, flag = whether the prefix was present", "ParseRegexpListItem shape: "+strings.Join(why, "; "))
+	r.check(good && (nOK == 1 || nOK == 2), "ruleset.ParseRegexpListItem", pf.Pos(), "one leading '-' cut (strings.CutPrefix), remainder compiled, flag = whether the prefix was present", "ParseRegexpListItem shape: "+strings.Join(why, "; "))
 
 	// ErrNoIncludeRules on empty include
 	nm := r.fn("ruleset", "NewRegexpMatcher")
@@ -223,7 +235,7 @@ func c17r3(r *R) {
 		}
 		if !empty && len(p.Ret) == 2 && p.Ret[1] == "nil" {
 			base := p.Ret[0]
-			if !strings.HasSuffix(p.Mem[base+".include"], "($0)") || !strings.HasSuffix(p.Mem[base+".exclude"], "($1)") {
+			if !fieldFromParam(nm, "include", 0, 1) || !fieldFromParam(nm, "exclude", 1, 0) {
 				bad = "matcher built with include=" + p.Mem[base+".include"] + " exclude=" + p.Mem[base+".exclude"]
 			}
 		}
@@ -267,4 +279,30 @@ func c17r4(r *R) {
 			r.check(strings.HasPrefix(d, "(*net/url.URL).Hostname("), fname(fn)+"#Match", c.Pos(), "matched on "+d, "domain list must be matched on the URL's host name without port, got "+d)
 		})
 	}
+}
+
+// fieldFromParam: every value fn stores into the named field of a RegexpMatcher it builds is computed
+// from parameter own and not from parameter other (followed through calls: a result depends on its operands).
+func fieldFromParam(fn *ssa.Function, field string, own, other int) bool {
+	n := 0
+	good := true
+	for _, b := range fn.Blocks {
+		for _, ins := range b.Instrs {
+			st, ok := ins.(*ssa.Store)
+			if !ok {
+				continue
+			}
+			fa, ok := st.Addr.(*ssa.FieldAddr)
+			if !ok || structName(fa.X.Type()) != "ruleset.RegexpMatcher" || fieldName(fa.X.Type(), fa.Field) != field {
+				continue
+			}
+			n++
+			usesOwn := dependsOn(st.Val, func(v ssa.Value) bool { return v == ssa.Value(fn.Params[own]) })
+			usesOther := dependsOn(st.Val, func(v ssa.Value) bool { return v == ssa.Value(fn.Params[other]) })
+			if !usesOwn || usesOther {
+				good = false
+			}
+		}
+	}
+	return n > 0 && good
 }
